@@ -16,14 +16,15 @@
  * The real logging thread and one application thread run the real code, but each blocks at every
  * hook point (QB_VP_LOGT_* via qb_verif_hook_fn, plus one point inside this harness's target logger)
  * until the scheduler grants it the next step; exactly one thread runs at a time.  One event per step:
- *   {"e":"Step","a":[tid,from,op,arg],"r":[to,ha,hb,lk,sem,mem,qlen,wrote,lostrep,closefn,rc,[via..]]}
+ *   {"e":"Step","a":[tid,from,op,arg],"r":[to,ha,hb,lk,sem,mem,qlen,wrote,lostrep,closefn,rc,[via..],held]}
  *   tid 1 = application, 2 = logging thread; from/to = hook point ids (0 = between calls, 499 = thread
  *   terminated); ha/hb = the arrival hook's integer arguments; lk = small id of the lock object named by
  *   the arrival hook (0 = NULL, -1 = none); sem/mem/qlen = semaphore value, logt_memory_used in records,
  *   queue length, read through the pointers the hooks carry (-1 = not observable); wrote = sequence
  *   number the target's logger was called with in this step; lostrep = N of an "N messages lost" report
  *   in this step; closefn = calls of the target's close function; rc = result of the call that returned;
- *   via = non-yielding hook points passed.
+ *   via = non-yielding hook points passed; held = 1/0 whether the lock the logging thread was created with
+ *   is held after the step (tried by the scheduler while every thread is parked; -1 = no such lock).
  * A thread that does not reach its next hook point within the watchdog time gives {"e":"Blocked",..},
  * a grant for a thread that is not waiting gives {"e":"Diverged",..}; neither is a step of the
  * specification, so the history is rejected, never hung.
@@ -204,6 +205,8 @@ static volatile int thread_live;	/* semaphore initialised and not yet destroyed 
 static long backlog;			/* 0 = real limit */
 static long bias, recsize;
 static int biased;
+static volatile int threads_created, threads_met;
+static qb_thread_lock_t *volatile wlockp;	/* the lock the logging thread was created with (T_CREATED hook) */
 static const void *locks[16];
 static int nlocks;
 
@@ -247,7 +250,7 @@ static void worker_gone(void *v)
 static void hook(int point, const void *obj, long a, long b)
 {
 	int t;
-	if (point != VP_INLOGGER && (point < QB_VP_LOGT_W_WAIT || point > QB_VP_LOGT_S_JOINED)) return;
+	if (point != VP_INLOGGER && (point < QB_VP_LOGT_W_WAIT || point > QB_VP_LOGT_T_CREATED)) return;
 	if (pthread_equal(pthread_self(), T[1].id)) {
 		t = 1;
 	} else {
@@ -274,9 +277,13 @@ static void hook(int point, const void *obj, long a, long b)
 	case QB_VP_LOGT_P_APPEND: case QB_VP_LOGT_W_DEQUEUE:
 		listp = (struct qb_list_head *)obj; break;
 	case QB_VP_LOGT_S_JOINED:
-		thread_live = 0; break;
+		thread_live = 0;
+		wlockp = NULL;
+		T[2].status = ST_NONE;		/* the old logging thread is gone for good; a later one starts from scratch */
+		break;
 	}
-	if (point == QB_VP_LOGT_P_POSTED || point == QB_VP_LOGT_S_POSTED || point == QB_VP_LOGT_S_JOINED) {
+	if (point == QB_VP_LOGT_T_CREATED) { threads_created++; wlockp = (qb_thread_lock_t *)obj; }	/* the scheduler waits for the new thread to reach its first hook */
+	if (point == QB_VP_LOGT_P_POSTED || point == QB_VP_LOGT_S_POSTED || point == QB_VP_LOGT_S_JOINED || point == QB_VP_LOGT_T_CREATED) {
 		if (step.nvia < 8) step.via[step.nvia++] = point;
 		return;
 	}
@@ -310,10 +317,16 @@ static void emit_step(int tid, int from, int op, long arg)
 		for (struct qb_list_head *p = listp->next; p != listp && qlen < 100000; p = p->next) qlen++;
 	}
 	if (is_lock_point(to)) lk = lock_id(t->obj);
+	/* is the logging thread's lock really held now?  (every thread is parked, so trying it disturbs nothing) */
+	long held = -1;
+	if (wlockp && thread_live) {
+		if (qb_thread_trylock(wlockp) == 0) { held = 0; (void)qb_thread_unlock(wlockp); } else held = 1;
+	}
 	vt_ev("Step"); vt_i(tid); vt_i(from); vt_i(op); vt_i(arg);
 	vt_res(); vt_i(to); vt_i(t->a); vt_i(t->b); vt_i(lk); vt_i(sem); vt_i(mem); vt_i(qlen);
 	vt_i(step.wrote); vt_i(step.lostrep); vt_i(step.closefn); vt_i(to == VP_IDLE ? t->rc : 0);
 	vt_lb(); for (int i = 0; i < step.nvia; i++) vt_i(step.via[i]); vt_le();
+	vt_i(held);
 	vt_end();
 }
 
@@ -332,6 +345,18 @@ static int await(int tid)
 			return (T[tid].status == ST_PARKED || T[tid].status == ST_TERMINATED) ? 0 : -1;
 		}
 	}
+}
+
+/* qb_log_thread_start created a logging thread in this step: let it run up to its first hook point, so that
+ * the step ends with every thread parked again (qb_log_thread_start itself only waits for the start signal,
+ * which the new thread gives before that point) */
+static int meet_new_thread(void)
+{
+	while (threads_met < threads_created) {
+		threads_met++;
+		if (await(2) != 0) return -1;
+	}
+	return 0;
 }
 
 static void finish_child(int code)
@@ -385,7 +410,7 @@ static int run_controlled(char **lines, int n)
 		__sync_synchronize();
 		t->status = ST_RUNNING;
 		sem_post(&t->go);
-		if (await(tid) != 0) {
+		if (await(tid) != 0 || meet_new_thread() != 0) {
 			vt_ev("Blocked"); vt_i(tid); vt_i(from); vt_i(op); vt_res(); vt_end();
 			finish_child(0);
 		}
@@ -397,7 +422,7 @@ static int run_controlled(char **lines, int n)
 			__sync_synchronize();
 			t->status = ST_RUNNING;
 			sem_post(&t->go);
-			if (await(tid) != 0) {
+			if (await(tid) != 0 || meet_new_thread() != 0) {
 				vt_ev("Blocked"); vt_i(tid); vt_i(from); vt_i(0); vt_res(); vt_end();
 				finish_child(0);
 			}
